@@ -6,7 +6,7 @@
    between the operations of second n + d and those of second n + d + 1:
      for n = 0 .. H-1:  operations of second n;  the wheel ticks and fires what is due;  observe.
    observation: one field per second: finished, handlers pending, number of control messages, their
-   codes, bytes received by the peer.  Definitions only. *)
+   codes, number of filler bytes (250) and the other bytes received by the peer.  Definitions only. *)
 From MV Require Import Base.Prelude Base.Res Model.IoState Model.Timer Model.IoEnv.
 
 Definition due (e : env) : bool :=
@@ -24,13 +24,15 @@ Definition wheel (e : env) : env :=
 Fixpoint ops_at (n : N) (e : env) (ops : list (list N)) : env :=
   match ops with
   | [] => e
-  | (s :: op) :: r => if s =? n then ops_at n (step_op e op) r else ops_at n e r
+  | (s :: op) :: r => if s =? n then ops_at n (flush_wq (step_op e op)) r else ops_at n e r
   | [] :: r => ops_at n e r
   end.
 
 Definition observe_rt (e : env) : list N :=
   let pending := (match e_resp e with Some _ => 1 | None => 0 end) + N.of_nat (length (e_spawned e)) in
-  e_fin e :: pending :: N.of_nat (length (e_log e)) :: e_log e ++ e_written e.
+  e_fin e :: pending :: N.of_nat (length (e_log e)) ::
+  e_log e ++ [N.of_nat (length (filter (N.eqb 250) (e_written e)))] ++
+  filter (fun b => negb (b =? 250)) (e_written e).
 
 Fixpoint seconds (fuel : nat) (n : N) (e : env) (ops : list (list N)) : list (list N) :=
   match fuel with
@@ -40,10 +42,147 @@ Fixpoint seconds (fuel : nat) (n : N) (e : env) (ops : list (list N)) : list (li
     observe_rt e1 :: seconds k (n + 1) e1 ops
   end.
 
+(* ---------------------------------------------------------------- real MQTT endpoints (cfg[8] = kind) *)
+(* server kinds 3 / 5: the connect phase is Timer.connect_phase (one CTick at the start of every second
+   after the first, CConnect when the CONNECT packet is complete); once connected the dispatcher runs
+   the timer machine with keep-alive Timer.ack_keepalive(ka) and the frame-read-rate of the case; the
+   MQTT codec consumes the two-byte PINGREQ header at once, so the only partial frame is a lone byte.
+   KeepAliveTimeout: v5 writes DISCONNECT 0x8D (141), ReadTimeout: DISCONNECT 0x83 (131); v3 just closes. *)
+Record msrv := mkMsrv {
+  m_conn : list cevent;        (* connect-phase history *)
+  m_cpart : bool;              (* the first bytes of CONNECT have arrived *)
+  m_up : bool;                 (* connected *)
+  m_closed : bool;
+  m_t : tstate;
+  m_buf : N;                   (* bytes of an incomplete packet in the read buffer *)
+  m_pkts : list N
+}.
+
+Definition m_cfg (cfg : list N) : tcfg :=
+  mkTcfg (ack_keepalive (nth 0 cfg 0))
+         (if nth 4 cfg 0 =? 0 then None else Some (mkRr (nth 4 cfg 0) (nth 5 cfg 0) (nth 6 cfg 0))).
+
+Definition m_close (v5 : bool) (m : msrv) (o : list tout) : msrv :=
+  match o with
+  | StopKeepAlive :: _ =>
+    mkMsrv (m_conn m) (m_cpart m) (m_up m) true (m_t m) (m_buf m) (m_pkts m ++ (if v5 then [224; 141] else []))
+  | StopRead :: _ =>
+    mkMsrv (m_conn m) (m_cpart m) (m_up m) true (m_t m) (m_buf m) (m_pkts m ++ (if v5 then [224; 131] else []))
+  | [] => m
+  end.
+
+Definition m_events (c : tcfg) (v5 : bool) (m : msrv) (evs : list tevent) : msrv :=
+  match t_run c (m_t m) evs with
+  | Ok (t, o) => m_close v5 (mkMsrv (m_conn m) (m_cpart m) (m_up m) (m_closed m) t (m_buf m) (m_pkts m)) o
+  | _ => mkMsrv (m_conn m) (m_cpart m) (m_up m) true (m_t m) (m_buf m) [9999; 9999]
+  end.
+
+Definition set_buf (m : msrv) (b : N) : msrv :=
+  mkMsrv (m_conn m) (m_cpart m) (m_up m) (m_closed m) (m_t m) b (m_pkts m).
+Definition add_pkt (m : msrv) (p : N) : msrv :=
+  mkMsrv (m_conn m) (m_cpart m) (m_up m) (m_closed m) (m_t m) (m_buf m) (m_pkts m ++ [p]).
+
+Definition srv_op (c : tcfg) (v5 : bool) (m : msrv) (op : N) : msrv :=
+  if m_closed m then m
+  else if op =? 3 then mkMsrv (m_conn m) (m_cpart m) (m_up m) true (m_t m) (m_buf m) (m_pkts m)
+  else if m_up m then
+    if op =? 21 then m_events c v5 (add_pkt (set_buf m 0) 208) [Recv true 0; Recv false 0]
+    else if op =? 22 then m_events c v5 (set_buf m 1) [Recv false 1]
+    else if op =? 23 then
+      if m_buf m =? 1 then m_events c v5 (add_pkt (set_buf m 0) 208) [Recv true 0; Recv false 0]
+      else m_events c v5 (set_buf m 1) [Recv false 1]
+    else if op =? 26 then m_events c v5 (set_buf m 1) [Recv false 1]
+    else if op =? 27 then
+      (* the fixed header [0x82; 5] is complete: the codec consumes it and waits for 5 more bytes *)
+      m_events c v5 (set_buf m 0) [Recv false 0]
+    else m
+  else
+    if (op =? 20) || ((op =? 25) && m_cpart m) then
+      (* CONNECT complete: CONNACK; the dispatcher's first poll finds nothing to decode *)
+      m_events c v5 (mkMsrv (m_conn m ++ [CConnect]) false true false (m_t m) 0 (m_pkts m ++ [32])) [Recv false 0]
+    else if op =? 24 then mkMsrv (m_conn m) true false false (m_t m) 0 (m_pkts m)
+    else m.
+
+Fixpoint srv_ops (c : tcfg) (v5 : bool) (n : N) (m : msrv) (ops : list (list N)) : msrv :=
+  match ops with
+  | [] => m
+  | [s; op] :: r => if s =? n then srv_ops c v5 n (srv_op c v5 m op) r else srv_ops c v5 n m r
+  | _ :: r => srv_ops c v5 n m r
+  end.
+
+Definition srv_due (m : msrv) : bool :=
+  match timer (m_t m) with Some dl => dl <=? now (m_t m) | None => false end.
+
+Fixpoint srv_seconds (fuel : nat) (ct : N) (c : tcfg) (v5 : bool) (n : N) (m : msrv) (ops : list (list N))
+  : list (list N) :=
+  match fuel with
+  | O => []
+  | S k =>
+    (* the connect timeout runs on the ms clock: it is checked at the start of the second *)
+    let m0 := if (0 <? n) && negb (m_up m) && negb (m_closed m) then
+                let h := m_conn m ++ [CTick] in
+                match connect_phase ct 0 h with
+                | Some CDropped => mkMsrv h (m_cpart m) false true (m_t m) (m_buf m) (m_pkts m)
+                | _ => mkMsrv h (m_cpart m) (m_up m) (m_closed m) (m_t m) (m_buf m) (m_pkts m)
+                end
+              else m in
+    let m1 := srv_ops c v5 n m0 ops in
+    (* the wheel *)
+    let m2 := if m_up m1 && negb (m_closed m1) && srv_due m1
+              then m_events c v5 m1 [TimerFired; Tick; Recv false (m_buf m1)]
+              else m_events c v5 m1 [Tick] in
+    (b2n (m_closed m2) :: m_pkts m2) :: srv_seconds k ct c v5 (n + 1) m2 ops
+  end.
+
+(* client kinds 13 / 15: CONNECT is written at once; after CONNACK the keep-alive loop is Timer.k_step,
+   one KTick at the start of every later second; the broker closing is KClose *)
+Record mcli := mkMcli { c_k : option kstate; c_closed : bool; c_pkts : list N }.
+
+Fixpoint cli_ops (ka n : N) (m : mcli) (ops : list (list N)) : mcli :=
+  match ops with
+  | [] => m
+  | [s; op] :: r =>
+    if s =? n then
+      let m1 := if c_closed m then m
+                else if op =? 30 then
+                  match c_k m with None => mkMcli (Some (k_init ka)) false (c_pkts m) | Some _ => m end
+                else if op =? 3 then
+                  mkMcli (match c_k m with Some k => Some (fst (k_step ka k KClose)) | None => None end) true (c_pkts m)
+                else m in
+      cli_ops ka n m1 r
+    else cli_ops ka n m r
+  | _ :: r => cli_ops ka n m r
+  end.
+
+Fixpoint cli_seconds (fuel : nat) (ka n : N) (m : mcli) (ops : list (list N)) : list (list N) :=
+  match fuel with
+  | O => []
+  | S k =>
+    let m0 := match c_k m with
+              | Some ks => let '(ks1, ping) := k_step ka ks KTick in
+                           mkMcli (Some ks1) (c_closed m) (c_pkts m ++ (if ping then [192] else []))
+              | None => m
+              end in
+    let m1 := cli_ops ka n m0 ops in
+    (b2n (c_closed m1) :: c_pkts m1) :: cli_seconds k ka (n + 1) m1 ops
+  end.
+
+Definition run_mqttrt (cfg : list N) (ops : list (list N)) : list (list N) :=
+  let kind := nth 8 cfg 0 in
+  let h := N.to_nat (nth 7 cfg 0) in
+  if (kind =? 13) || (kind =? 15) then cli_seconds h (nth 0 cfg 0) 0 (mkMcli None false [16]) ops
+  else
+    let c := m_cfg cfg in
+    let o := srv_seconds h (nth 9 cfg 0) c (kind =? 5) 0 (mkMsrv [] false false false (t_init c) 0 []) ops in
+    (* a panic of the connection task (m_pkts = [9999; 9999]) is the observation 9999 *)
+    if existsb (fun f => match f with _ :: 9999 :: _ => true | _ => false end) o then [[9999]] else o.
+
 Definition run_timerrt (c : list (list N)) : list (list N) :=
   match c with
   | [] => []
   | cfg :: ops =>
+    if negb (nth 8 cfg 0 =? 0) then run_mqttrt cfg ops
+    else
     let o := seconds (N.to_nat (nth 7 cfg 0)) 0 (settle (env_init cfg)) ops in
     if panicked o then [[9999]] else o
   end.
